@@ -737,3 +737,88 @@ func init() {
 		}
 	}
 }
+
+// asyncPrunePin binds PinHolds of IavlConc.tla to the background pruner: with AsyncPruningOption the request
+// DeleteVersionsTo(n) only records n; the pruner goroutine picks it up at its next poll (100 ms). An export
+// opened on a version <= n in that window pins the version: the pruner must leave it alone for as long as
+// the export is open, so the export, drained after the pruner has had several polls, must deliver the whole
+// version. The window between the request and the export is a few microseconds against a 100 ms poll; in
+// the rare run where the pruner got in first (GetImmutable fails, or the pruner was past its reader check)
+// nothing is judged: the scenario is repeated and only a mismatch in every repetition is reported.
+func asyncPrunePinOnce(fast bool) (string, bool) {
+	db, cleanup := scenarioDB("mem")
+	defer cleanup()
+	t := iavl.NewMutableTree(db, 0, !fast, iavl.NewNopLogger(), iavl.AsyncPruningOption(true)) // no node cache: the export reads the store
+	defer t.Close()
+	if _, err := t.Load(); err != nil {
+		return err.Error(), true
+	}
+	const n = 200 // far more nodes than the exporter prefetches (32)
+	for v := 1; v <= 4; v++ {
+		for j := 0; j < n; j++ {
+			_, _ = t.Set([]byte(fmt.Sprintf("k%03d", j)), []byte(fmt.Sprintf("v%d-%d", v, j)))
+		}
+		t.SetCommitting()
+		_, _, err := t.SaveVersion()
+		t.UnsetCommitting()
+		if err != nil {
+			return err.Error(), true
+		}
+	}
+	time.Sleep(150 * time.Millisecond) // the pruner is idle and polling
+	if err := t.DeleteVersionsTo(3); err != nil {
+		return "", false // refused: nothing to judge
+	}
+	it, err := t.GetImmutable(3)
+	if err != nil {
+		return "", false // the pruner was faster
+	}
+	exp, err := it.Export()
+	if err != nil {
+		return "", false
+	}
+	defer exp.Close()
+	time.Sleep(600 * time.Millisecond) // several polls of the pruner
+	leaves := 0
+	for {
+		node, err := exp.Next()
+		if err == iavl.ErrorExportDone {
+			break
+		}
+		if err != nil {
+			return fmt.Sprintf("export of version 3, opened while a background prune to 3 was pending, failed after %d leaves: %v", leaves, err), true
+		}
+		if node.Height == 0 {
+			if want := fmt.Sprintf("v3-%d", leaves); string(node.Value) != want {
+				return fmt.Sprintf("export of pinned version 3: leaf %d has value %q, want %q", leaves, node.Value, want), true
+			}
+			leaves++
+		}
+	}
+	if leaves != n {
+		return fmt.Sprintf("export of version 3, opened while a background prune to 3 was pending, delivered %d of %d leaves (the pruner deleted a version with an open export)", leaves, n), true
+	}
+	if !t.VersionExists(3) {
+		return "version 3 was deleted while an export of it was open", true
+	}
+	return "", true
+}
+
+func asyncPrunePin(fast bool) string {
+	last := ""
+	for rep := 0; rep < 3; rep++ {
+		msg, judged := asyncPrunePinOnce(fast)
+		if judged && msg == "" {
+			return ""
+		}
+		if judged {
+			last = msg
+		}
+	}
+	return last // "" when no repetition could be judged
+}
+
+func init() {
+	allScenarios["async-prune-pin/index-on"] = func() string { return watchdog(30*time.Second, func() string { return asyncPrunePin(true) }) }
+	allScenarios["async-prune-pin/index-off"] = func() string { return watchdog(30*time.Second, func() string { return asyncPrunePin(false) }) }
+}
